@@ -325,9 +325,19 @@ func evalC16(c *Ctx, cs *Case) {
 				args = append(args, "--target-dir", jc.Target)
 				cwd = jc.Root
 			}
+			// the document comes from stdin or, for half of the runs, from --file
+			mstdin := doc
+			viaFile := r.Intn(2) == 0
+			if viaFile {
+				args = append(args, "--file", docFile)
+				mstdin = nil
+			}
 			before := jc.Snap()
-			res := runCLI(c, cwd, doc, "", args...)
+			res := runCLI(c, cwd, mstdin, "", args...)
 			after := jc.Snap()
+			if viaFile {
+				args = args[:len(args)-2]
+			}
 			// library: the CLI's dry-run is Output + WithDryRun on color.Output; the real run is MkdirFromMarkdown
 			var lib Outcome
 			var libSnapDiff []string
@@ -372,7 +382,12 @@ func evalC16(c *Ctx, cs *Case) {
 						}
 					}
 					vlib := verifyCall(verifyRoutes[0], string(doc), nil, fsOpts(jc.Target, nil, false, false, false, strict))
-					vres := runCLI(c, vcwd, doc, "", vargs...)
+					vstdin := doc
+					if r.Intn(2) == 0 {
+						vargs = append([]string{vargs[0], "-f", docFile}, vargs[1:]...)
+						vstdin = nil
+					}
+					vres := runCLI(c, vcwd, vstdin, "", vargs...)
 					vlabel := strings.Join(vargs[:len(vargs)-map[bool]int{true: 1, false: 0}[withTarget]], " ")
 					judge(vlabel, vres, vlib.Err == nil && vlib.Panic == nil, nil, false, nil, map[string]any{"lib_err": errStr(vlib.Err)})
 				}
